@@ -122,7 +122,7 @@ Definition spec_cacheable (qn : name) (r : rr) : bool :=
 (* ------------------------------------------------------------- check_case *)
 Definition expected_vis (auth : name) (q : question) (m : umsg) : list bool :=
   let rel := relayed_answer auth q m in
-  map (fun _ => negb (match rel with [] => true | _ => false end)) (u_answer m).
+  map (fun r => negb (match rel with [] => true | _ => false end) && is_sub auth (rr_owner r)) (u_answer m).
 
 Definition model_glue_names (level : nat) (auth : name) (q : question) (m : umsg) : list name :=
   match referral_glue false [] level auth q m with
@@ -168,7 +168,8 @@ Definition check_case (c : case) : bool :=
   | CaseLab auth level q m vis glue deleg later =>
       Nat.eqb (length vis) (length (u_answer m)) &&
       (if relay_exact auth q m then list_eqb Bool.eqb vis (expected_vis auth q m)
-       else match relayed_answer auth q m with [] => forallb negb vis | _ => true end) &&
+       else (* an alias chase ran: it may turn the reply into SERVFAIL, it never adds what was filtered out *)
+            forallb (fun p => implb (snd p) (fst p)) (combine (expected_vis auth q m) vis)) &&
       same_names (model_glue_names level auth q m) glue &&
       forallb (fun n => spec_strictly_below auth n) deleg &&
       negb later
